@@ -1134,6 +1134,9 @@ class Interp:
         return ListVal(out)
 
     def is_symbolic_seq(self, v):
+        from . import nparr
+        if isinstance(v, nparr.NArr):
+            return not isinstance(v.n, int)
         if isinstance(v, SymList):
             return True
         if isinstance(v, SeqVal):
@@ -1141,6 +1144,9 @@ class Interp:
         return False
 
     def as_seq(self, ctx, v):
+        from . import nparr
+        if isinstance(v, nparr.NArr):
+            return SeqVal(v.n, v.elem, tag="ndarray")
         if isinstance(v, SeqVal):
             return v
         if isinstance(v, SymList):
